@@ -33,8 +33,8 @@ OutFile(F) ==
       array_offsets |-> [k \in 1..F.narr |-> ArrayOffset(F, k-1)],
       file_len |-> FileLen(F), min_file_len |-> MinFileLen(F),
       tracecount |-> TraceCount(F),
-      unit_addr |-> [k \in 1..(NU(F)[1]*NU(F)[2]*NU(F)[3]) |->
-                        UnitAddr(F, <<(k-1) \div (NU(F)[2]*NU(F)[3]), ((k-1) \div NU(F)[3]) % NU(F)[2], (k-1) % NU(F)[3]>>)],
+      unit_addr |-> [k \in 1..(NUa(F, 1)*NUa(F, 2)*NUa(F, 3)) |->
+                        UnitAddr(F, <<(k-1) \div (NUa(F, 2)*NUa(F, 3)), ((k-1) \div NUa(F, 3)) % NUa(F, 2), (k-1) % NUa(F, 3)>>)],
       fields |-> HeaderFields ]
 
 ASSUME JsonSerialize(IOEnv.VZ_OUT,
